@@ -452,7 +452,11 @@ pub fn c15(ctx: &Ctx, rep: &mut Report) {
         } else if let Some(src) = r.get("src").and_then(|s| s.as_str()) {
             if let Ok(ast) = real::parse(src) {
                 let mut rng = ctx.rng("replay", 0);
-                judge(rep, "C15", "replay", &ast, src, &mut rng, JudgeOpts::full());
+                let j = judge(rep, "C15", "replay", &ast, src, &mut rng, JudgeOpts::full());
+                // and at the CLI, where the source is read by the tool itself
+                let dir = ctx.scratch("replay");
+                judge_cli(rep, "C15", "replay", src, &j.outcome, &dir, 0);
+                judge_cli(rep, "C15", "replay", src, &j.outcome, &dir, 1);
             }
         }
         return;
@@ -478,6 +482,8 @@ pub fn c15(ctx: &Ctx, rep: &mut Report) {
     // random formats over a wide Unicode alphabet: every character other than ~ and the six escapes
     // is copied unchanged
     let nu = ctx.share(60_000, 2_000_000);
+    let cli_every = (nu / if ctx.quick() { 25 } else { 400 }).max(1);
+    let cli_dir = ctx.scratch("c15");
     for i in 0..nu {
         let mut rng = ctx.rng("C15u", i);
         let len = rng.below(24);
@@ -507,6 +513,38 @@ pub fn c15(ctx: &Ctx, rep: &mut Report) {
         }
         c15_format_case(rep, &f, nargs);
         rep.bump("c15-unicode-formats", if ph == nargs { "matching" } else { "mismatching" });
+        // a sample through the real CLI (file and stdin): raw control characters, CR LF pairs and
+        // anything else inside a format literal must reach stdout byte for byte
+        if i % cli_every == 0 && printer::is_source_format(&f) {
+            let mut f2 = f.clone();
+            f2.push_str(["\r\n", "\r", "\n", "\t", "", "\r\n\r\n"][rng.below(6)]);
+            let rendered: Vec<String> = (0..nargs).map(|a| (10 + a).to_string()).collect();
+            if let Ok(expect) = prim::format_print(&f2, &rendered) {
+                let args: Vec<AST> = (0..nargs).map(|a| AST::Integer(10 + a as i32)).collect();
+                let ast = AST::top(vec![AST::print("begin\\n".into(), vec![]), AST::print(f2.clone(), args), AST::print("end".into(), vec![])]);
+                if let Ok(toks) = printer::tokens(&ast, printer::Style::minimal()) {
+                    // CR LF line ends between tokens as well
+                    let src = toks.join(if i % 2 == 0 { "\r\n" } else { " " });
+                    let file = cli_dir.join(format!("u{}.fml", i % 64));
+                    if std::fs::write(&file, &src).is_ok() {
+                        let run = if i % 3 == 0 { super::super::cli::fml_run_stdin(&src) } else { super::super::cli::fml_run_file(&file) };
+                        rep.evaluations += 1;
+                        if !run.timed_out && run.spawn_error.is_none() {
+                            rep.conclusive += 1;
+                            rep.count("cli_runs", 1);
+                            let want = format!("begin\n{}end", expect);
+                            if !run.success() || run.stdout != want.as_bytes() {
+                                rep.violation(
+                                    "C15:cli-format-bytes",
+                                    format!("`fml run` of a print whose format literal is {:?}: expected stdout {:?}, observed {}", f2, want, run.describe()),
+                                    json!({"check":"C15","src":src}),
+                                );
+                            }
+                        }
+                    }
+                }
+            }
+        }
     }
     // rendering of nested values
     let n = ctx.share(60_000, 2_000_000);
